@@ -173,6 +173,87 @@ def replay_history(job):
     return None, []
 
 
+def replay_global(job):
+    """the same history with the configuration installed as the GLOBAL one and the palettes created as synced palettes:
+    synced palettes (and ak.color.global_palette) must reflect the current state after every step, and after a NEW
+    global configuration made of the same initial items is installed (histories without direct registrations)"""
+    from ak import color
+    saved = color._GLOBAL_COLORS_CONF
+    mine = []
+    try:
+        return _replay_global(job, mine)
+    finally:
+        for cls in mine:
+            color._GSYNCED_PALETTES.pop(cls, None)
+        color.set_global_colors_config(saved)
+
+
+def _replay_global(job, mine):
+    hist, no_color, nested = job
+    from ak import color
+    from ak.color import ColorsConfig, Palette, ConfColor, set_global_colors_config, global_palette
+    conf = None
+    synced = []
+    first_flat = None
+
+    def check(where, exp, cf):
+        for obj, acc in synced:
+            for a, i in acc.items():
+                want = _want_state(exp[i], no_color)
+                got = _shown(getattr(obj, a))
+                if got != want:
+                    return '%s: synced palette %s shows %s for %r, expected %s' % (where, type(obj).__name__, got, i, want)
+        for i, v in exp.items():
+            want = _want_state(v, no_color)
+            if _shown(global_palette[i]) != want:
+                return '%s: global_palette[%r] shows %s, expected %s' % (where, i, _shown(global_palette[i]), want)
+            if _shown(cf.get_color(i)) != want:
+                return '%s: get_color(%r) of the global configuration shows %s, expected %s' % (where, i, _shown(cf.get_color(i)), want)
+        return None
+    for n, st in enumerate(hist):
+        if isinstance(st['batch'], list):
+            st['batch'] = {}
+        flat = {i: init_str(d) for i, d in st['batch'].items()}
+        if st['kind'] == 'config' and st.get('text'):
+            flat['TEXT'] = 'CYAN:underline'
+        arg = _nest(flat) if nested else flat
+        where = 'global configuration, step %d (%s %s)' % (n + 1, st['kind'], flat)
+        try:
+            if st['kind'] == 'config':
+                first_flat = dict(flat)
+                conf = ColorsConfig(arg, no_color=no_color)
+                set_global_colors_config(conf)
+            elif st['kind'] == 'direct':
+                conf.add_new_items(flat, 'component %d' % n)
+            else:
+                acc = {'a%d' % k: i for k, i in enumerate(sorted(flat))}
+                acc['zz'] = 'U'
+                ns = {'SYNTAX_DEFAULTS': arg}
+                ns.update({a: ConfColor(i) for a, i in acc.items()})
+                cls = type('Pal', (Palette,), ns)
+                mine.append(cls)
+                obj = cls(synced=True)
+                if cls(synced=True) is not obj:
+                    return '%s: a second synced palette object of the same class' % where, []
+                synced.append((obj, acc))
+        except Exception as e:
+            return '%s raised %s: %s' % (where, type(e).__name__, str(e)[:120]), []
+        prob = check(where, st['exp'], conf)
+        if prob:
+            return prob, []
+    if synced and first_flat is not None and not any(st['kind'] == 'direct' for st in hist):
+        # a NEW global configuration with the same explicit items: the synced palettes register their defaults again
+        conf2 = ColorsConfig(_nest(first_flat) if nested else dict(first_flat), no_color=no_color)
+        try:
+            set_global_colors_config(conf2)
+        except Exception as e:
+            return 'installing a new global configuration raised %s: %s' % (type(e).__name__, str(e)[:120]), []
+        prob = check('a new global configuration %s installed after the history' % first_flat, hist[-1]['exp'], conf2)
+        if prob:
+            return prob, []
+    return None, []
+
+
 def _flat(d, prefix=''):
     out = {}
     for k, v in d.items():
@@ -204,6 +285,10 @@ def run(ctx):
     for job, (prob, tags) in zip(jobs, res):
         if prob:
             ctx.violation({'history': job[0], 'no_color': job[1], 'nested': job[2]}, prob, tags)
+    res = pmap(replay_global, jobs)
+    for job, (prob, tags) in zip(jobs, res):
+        if prob:
+            ctx.violation({'history': job[0], 'no_color': job[1], 'nested': job[2], 'global': True}, prob, tags)
     bad = json.loads(json.dumps(hists[n_exh // 2]))
     for st in bad:
         k = sorted(st['exp'])[0]
@@ -218,4 +303,5 @@ def run(ctx):
 
 
 def replay(ctx, case):
-    return replay_history((case['history'], case['no_color'], case['nested']))[0]
+    job = (case['history'], case['no_color'], case['nested'])
+    return (replay_global if case.get('global') else replay_history)(job)[0]
